@@ -299,3 +299,63 @@ def self_accumulation_rule(ctx, rep: Report, clause: str, modules):
                   f'`{norm_stmt(x)[:100]}` stores into {d}[{k}] the sum built on {d2}[{k2}]: the count accumulated so '
                   f'far under {k} is replaced by a value taken from another entry', f.loc(x), clause)
     rep.floor('ACC-self', 'get-and-add accumulations', n, 3)
+
+
+def stale_accumulator_rule(ctx, rep: Report, clause: str, modules, floor: int = 0):
+    """a local that is added to inside a loop L and *used* inside L (not only after it) must be bound anew inside L:
+    otherwise each iteration's use also contains what the earlier iterations added (a per-residue / per-rule subtotal
+    that silently becomes a running total).  A total that is only read after the loop is the ordinary case and is not
+    touched; running totals that are meant to be running (prefix sums) do not occur in the modules this is armed on."""
+    import ast as _ast
+    from ..loader import walk_own as _walk
+    program = ctx.program
+    n = 0
+    for f in program.all_functions():
+        if f.module.name not in modules:
+            continue
+        loops = [x for x in _walk(f.node) if isinstance(x, (_ast.For, _ast.While))]
+        for lp in loops:
+            inside = list(_ast.walk(lp))
+            augs = {}
+            for x in inside:
+                if isinstance(x, _ast.AugAssign) and isinstance(x.target, _ast.Name) and isinstance(x.op, (_ast.Add, _ast.Sub)):
+                    augs.setdefault(x.target.id, []).append(x)
+                elif isinstance(x, _ast.Assign) and len(x.targets) == 1 and isinstance(x.targets[0], _ast.Name) and \
+                        isinstance(x.value, _ast.BinOp) and isinstance(x.value.op, (_ast.Add, _ast.Sub)) and \
+                        isinstance(x.value.left, _ast.Name) and x.value.left.id == x.targets[0].id:
+                    augs.setdefault(x.targets[0].id, []).append(x)
+            for v, sites in augs.items():
+                n += 1
+                rebound = any(isinstance(x, _ast.Assign) and x not in sites and any(
+                    isinstance(t, _ast.Name) and t.id == v for t in _ast.walk(x.targets[0])) for x in inside) or \
+                    any(isinstance(x, (_ast.For, _ast.comprehension)) and any(
+                        isinstance(t, _ast.Name) and t.id == v for t in _ast.walk(x.target)) for x in inside)
+                own = {id(y) for s_ in sites for y in _ast.walk(s_.target if isinstance(s_, _ast.AugAssign) else s_)
+                       if isinstance(y, _ast.Name) and y.id == v and
+                       (isinstance(s_, _ast.AugAssign) or y is s_.targets[0] or y is s_.value.left)}
+                # the loop's own test/iterable is not a use of the subtotal
+                reads = [y for y in inside if isinstance(y, _ast.Name) and y.id == v and isinstance(y.ctx, _ast.Load)
+                         and id(y) not in own]
+                if isinstance(lp, _ast.While):
+                    reads = [y for y in reads if not any(y is z for z in _ast.walk(lp.test))]
+                ok = rebound or not reads
+                check(rep, 'ACC-stale', f.fq, f'`{v}`, added to and used inside one loop, is bound anew in that loop',
+                      ok, 'a total read only after the loop, or a subtotal reset per iteration',
+                      f'`{v}` is added to inside the loop at line {lp.lineno} and used there '
+                      f'(`{norm_stmt(_stmt_of(f.node, reads[0]))[:80] if reads else ""}`) but never bound anew inside '
+                      f'it: from the second iteration on the use also contains what the earlier iterations added',
+                      f.loc(lp), clause)
+    if floor:
+        rep.floor('ACC-stale', 'accumulators inside loops', n, floor)
+    return n
+
+
+def _stmt_of(fnode, node):
+    import ast as _ast
+    best = None
+    for st in _ast.walk(fnode):
+        if isinstance(st, _ast.stmt) and not isinstance(st, (_ast.For, _ast.While, _ast.If, _ast.With, _ast.Try,
+                                                              _ast.FunctionDef)):
+            if any(x is node for x in _ast.walk(st)):
+                best = st
+    return best or node
